@@ -160,7 +160,8 @@ Theorem code3_injective off P b i j b' i' j' :
   code3 off P b i j == code3 off P b' i' j' -> b = b' /\ i = i' /\ j = j'.
 Proof.
   intros Hi Hj Hi' Hj' H. unfold code3 in H. apply inject_Z_inj in H.
-  assert (E : ((b * P + i) * P + j = (b' * P + i') * P + j')%nat) by lia.
+  assert (E : ((b * P + i) * P + j = (b' * P + i') * P + j')%nat).
+  { apply Nat2Z.inj. rewrite !Nat2Z.inj_add, !Nat2Z.inj_mul, !Nat2Z.inj_add, !Nat2Z.inj_mul. lia. }
   destruct (Nat.div_mod_unique P (b * P + i) (b' * P + i') j j' Hj Hj') as [E1 E2]; [lia|].
   destruct (Nat.div_mod_unique P b b' i i' Hi Hi') as [E3 E4]; [lia|].
   repeat split; assumption.
@@ -169,6 +170,8 @@ Theorem code2_injective off P b i b' i' :
   (i < P)%nat -> (i' < P)%nat -> code2 off P b i == code2 off P b' i' -> b = b' /\ i = i'.
 Proof.
   intros Hi Hi' H. unfold code2 in H. apply inject_Z_inj in H.
+  assert (E : (b * P + i = b' * P + i')%nat).
+  { apply Nat2Z.inj. rewrite !Nat2Z.inj_add, !Nat2Z.inj_mul. lia. }
   destruct (Nat.div_mod_unique P b b' i i' Hi Hi') as [E3 E4]; [lia|]. split; assumption.
 Qed.
 
